@@ -1242,6 +1242,116 @@ pub fn prepare_queue_cleanup(
         .collect()
 }
 
+/// Verification hooks (feature `verif` only, add-only): public wrappers over the private functions
+/// of this module, used by the external harness in /verif.
+#[cfg(feature = "verif")]
+pub mod verif_api {
+    use super::*;
+
+    pub struct Senders(AutoallocSenders);
+
+    impl Senders {
+        pub fn new(server: ServerRef, events: EventStreamer) -> Self {
+            Senders(AutoallocSenders { server, events })
+        }
+        pub fn events(&self) -> &EventStreamer {
+            &self.0.events
+        }
+        pub fn server(&self) -> &ServerRef {
+            &self.0.server
+        }
+    }
+
+    fn response(sn: u32, mn_allocs: u32, mn_workers: u32) -> QueryResponse {
+        QueryResponse {
+            single_node_workers: sn,
+            multinode_allocations: mn_allocs,
+            multinode_workers_per_alloc: mn_workers,
+        }
+    }
+
+    pub async fn handle_message(
+        autoalloc: &mut AutoAllocState,
+        events: &EventStreamer,
+        message: AutoAllocMessage,
+    ) -> bool {
+        super::handle_message(autoalloc, events, message).await
+    }
+
+    pub async fn perform_submits(
+        autoalloc: &mut AutoAllocState,
+        senders: &Senders,
+    ) -> anyhow::Result<()> {
+        super::perform_submits(autoalloc, &senders.0).await
+    }
+
+    pub async fn do_periodic_update(senders: &Senders, autoalloc: &mut AutoAllocState) {
+        super::do_periodic_update(&senders.0, autoalloc).await
+    }
+
+    pub async fn refresh_queue_allocations(
+        events: &EventStreamer,
+        autoalloc: &mut AutoAllocState,
+        queue_id: QueueId,
+    ) {
+        super::refresh_queue_allocations(events, autoalloc, queue_id).await
+    }
+
+    /// `queue_try_submit` with an explicit query response
+    /// (single-node workers, multi-node allocations, workers per multi-node allocation).
+    pub async fn queue_try_submit(
+        autoalloc: &mut AutoAllocState,
+        queue_id: QueueId,
+        senders: &Senders,
+        query_response: (u32, u32, u32),
+    ) {
+        let (sn, mn, mnw) = query_response;
+        super::queue_try_submit(autoalloc, queue_id, &senders.0, response(sn, mn, mnw)).await
+    }
+
+    pub fn compute_submission_permit(
+        queue: &AllocationQueue,
+        query_response: (u32, u32, u32),
+    ) -> Vec<u64> {
+        let (sn, mn, mnw) = query_response;
+        super::compute_submission_permit(queue, response(sn, mn, mnw)).allocs_to_submit
+    }
+
+    pub fn try_pause_queue(queue: &mut AllocationQueue, id: QueueId) -> bool {
+        super::try_pause_queue(queue, id)
+    }
+
+    pub async fn remove_queue(
+        autoalloc: &mut AutoAllocState,
+        events: &EventStreamer,
+        id: QueueId,
+        force: bool,
+    ) -> anyhow::Result<()> {
+        super::remove_queue(autoalloc, events, id, force).await
+    }
+
+    pub fn create_queue_worker_query(queue: &AllocationQueue) -> WorkerTypeQuery {
+        super::create_queue_worker_query(queue)
+    }
+
+    /// The aggregated per-queue responses `perform_submits` would compute for `queries`.
+    pub fn compute_query_responses(
+        senders: &Senders,
+        queries: Vec<WorkerTypeQuery>,
+    ) -> anyhow::Result<Vec<(u32, u32, u32)>> {
+        Ok(super::compute_query_responses(&senders.0, queries)?
+            .into_iter()
+            .map(|r| {
+                (
+                    r.single_node_workers,
+                    r.multinode_allocations,
+                    r.multinode_workers_per_alloc,
+                )
+            })
+            .collect())
+    }
+}
+
 #[cfg(test)]
 mod tests {
     use std::future::Future;
